@@ -239,11 +239,15 @@ def run_case(kind, q):
                     msgs.append(f"SparseCorrelationUDF (single tile): corr of frame {f} differs from the direct correlation "
                                 f"of the log-scaled frame by {np.abs(got - want).max():.4g}")
                     break
-            try:
-                SparseCorrelationUDF(peaks=peaks, match_pattern=pattern, steps=steps, zero_shift=np.array([1.0, 0.0]))
-                msgs.append("SparseCorrelationUDF accepted a zero_shift")
-            except ValueError:
-                pass
+            # "it rejects a zero shift": any zero shift that is given -- a constant one, one per frame, also one whose entries
+            # all happen to be zero (the stamped masks cannot follow a shift; a caller that passes one is told so)
+            for zs_ in (np.array([1.0, 0.0]), np.zeros(2), (0, 0), np.zeros((len(frames), 2)), [0.0, -0.0],
+                        np.array([0.0, 1e-9]), np.zeros(2, dtype=np.int64)):
+                try:
+                    SparseCorrelationUDF(peaks=peaks, match_pattern=pattern, steps=steps, zero_shift=zs_)
+                    msgs.append(f"SparseCorrelationUDF accepted zero_shift={np.asarray(zs_).tolist()}")
+                except ValueError:
+                    pass
     return msgs[:6]
 
 
